@@ -92,7 +92,7 @@ def replay_regularize(model, two=True, inf_hi=False):
     return bad, {"what": f"regularize_initial_guess -> {g} for bounds M=({m['M0']}, {m['M1']}), tau=({m['tau0']}, {m['tau1']})", "inputs": m}
 
 
-def replay_fit(model, with_tau=False, inf_hi=False):
+def replay_fit(model, with_tau=False, inf_hi=False, rebound=False):
     import numpy as np
     from bluebonnet.forecast import Bounds, ForecasterOnePhase
     m = model_floats(model, ["M0", "M1", "tau0", "tau1", "tau_in"], default=dict(M0=10.0, M1=5000.0, tau0=20.0, tau1=900.0, tau_in=250.0))
@@ -104,6 +104,12 @@ def replay_fit(model, with_tau=False, inf_hi=False):
         m["M0"] = max(m["M0"], 2.0 * float(cum[-1]) + 100.0)
         m["tau0"] = max(m["tau0"], 5.0 * float(t[-1]) + 100.0)
     f = ForecasterOnePhase(_rf_real, Bounds(M=(m["M0"], m["M1"]), tau=(m["tau0"], m["tau1"])))
+    if rebound:
+        # the forecaster was built with wide default-like bounds; narrower ones that exclude the generating parameters
+        # (M = 1234, tau = 321) are assigned to its public `bounds` field before the fit
+        f = ForecasterOnePhase(_rf_real, Bounds(M=(0.0, 1e6), tau=(1e-3, 1e5)))
+        m.update(M0=10.0, M1=900.0, tau0=20.0, tau1=200.0)
+        f.bounds = Bounds(M=(m["M0"], m["M1"]), tau=(m["tau0"], m["tau1"]))
     try:
         f.fit(t, cum, tau=m["tau_in"] if with_tau else None)
     except Exception as ex:  # noqa: BLE001
@@ -230,7 +236,7 @@ def job_bounds(job):
                     job.errors.append("regularize changed the length of the guess")
 
 
-def job_fit(job, n, inf_hi=False):
+def job_fit(job, n, inf_hi=False, rebound=False):
     mod = _load()
     job.encoded(mod, "ForecasterOnePhase.fit", "Bounds.fit_bounds", "Bounds.regularize_initial_guess")
     job.stub("scipy.optimize.curve_fit: contract stub (ValueError if p0 is outside the bounds handed over, else popt inside them; "
@@ -250,10 +256,15 @@ def job_fit(job, n, inf_hi=False):
             SS.OptCalls.reset()
             SS.reset_names()
             f = mod.ForecasterOnePhase(rf, mod.Bounds(M=(vs["M0"], M1), tau=(vs["tau0"], tau1)))
+            if rebound:
+                # built with other bounds; the configured ones are assigned to the public `bounds` field afterwards
+                f = mod.ForecasterOnePhase(rf, mod.Bounds(M=(fresh("M0_old", pos=True), fresh("M0_old", pos=True) + fresh("dM_old", pos=True)),
+                                                          tau=(fresh("tau0_old", pos=True), fresh("tau0_old", pos=True) + fresh("dtau_old", pos=True))))
+                f.bounds = mod.Bounds(M=(vs["M0"], M1), tau=(vs["tau0"], tau1))
             f.fit(SymArray(ts, "f8"), SymArray(cs, "f8"), tau=tau_in if with_tau else None)
             return f, list(SS.OptCalls.curve_fit)
-        rp = (replay_fit, {"with_tau": with_tau, "inf_hi": inf_hi})
-        tag = ("tau supplied" if with_tau else "tau fitted") + (", half-infinite bounds" if inf_hi else "")
+        rp = (replay_fit, {"with_tau": with_tau, "inf_hi": inf_hi, "rebound": rebound})
+        tag = ("tau supplied" if with_tau else "tau fitted") + (", half-infinite bounds" if inf_hi else "") + (", bounds assigned after construction" if rebound else "")
         for k, pr in enumerate(paths(job, run, dom, catch=(ValueError,), max_paths=64)):
             if pr.exc is not None:
                 job.prove(f"fit[{tag}]/raises (initial guess outside the bounds handed to curve_fit?)[path{k}]", pr.pc, bound=f"{n} samples", replay=rp, note=str(pr.exc)[:60])
@@ -422,7 +433,7 @@ FALLBACK = [(replay_scaling, {}), (replay_scaling, {"partial": True}), (replay_f
 
 def jobs(tier):
     out = [("scaling-2", lambda j: job_scaling(j, 2)), ("bounds", job_bounds), ("fit-2", lambda j: job_fit(j, 2)), ("refit-2", lambda j: job_refit(j, 2)),
-           ("fit-2-halfinf", lambda j: job_fit(j, 2, inf_hi=True))]
+           ("fit-2-halfinf", lambda j: job_fit(j, 2, inf_hi=True)), ("fit-2-bounds-reassigned", lambda j: job_fit(j, 2, rebound=True))]
     if tier != "quick":
         out += [("scaling-3", lambda j: job_scaling(j, 3)), ("fit-3", lambda j: job_fit(j, 3)), ("scaling-5", lambda j: job_scaling(j, 5)),
                 ("fit-4", lambda j: job_fit(j, 4)), ("fit-3-halfinf", lambda j: job_fit(j, 3, inf_hi=True)), ("refit-3", lambda j: job_refit(j, 3)),
